@@ -7,9 +7,13 @@
 #[cfg(feature = "annex-b")]
 use crate::operations::annex_b_function_declarations_names;
 use crate::{
-    Declaration, Module, Script, StatementListItem, ToJsString,
-    declaration::{Binding, ExportDeclaration, LexicalDeclaration, VariableList},
-    expression::{Identifier, literal::ObjectMethodDefinition},
+    Declaration, Module, Script, StatementList, StatementListItem, ToJsString,
+    declaration::{Binding, ExportDeclaration, LexicalDeclaration, Variable, VariableList},
+    expression::{
+        Identifier,
+        literal::ObjectMethodDefinition,
+        operator::{Assign, Update, assign::AssignTarget, update::UpdateTarget},
+    },
     function::{
         ArrowFunction, AsyncArrowFunction, AsyncFunctionDeclaration, AsyncFunctionExpression,
         AsyncGeneratorDeclaration, AsyncGeneratorExpression, ClassDeclaration, ClassElement,
@@ -27,7 +31,7 @@ use crate::{
         Block, Catch, ForInLoop, ForLoop, ForOfLoop, Switch, With,
         iteration::{ForLoopInitializer, IterableLoopInitializer},
     },
-    visitor::{NodeRef, NodeRefMut, VisitorMut},
+    visitor::{NodeRef, NodeRefMut, VisitWith, VisitorMut},
 };
 use boa_interner::{Interner, Sym};
 use rustc_hash::FxHashMap;
@@ -78,6 +82,8 @@ where
         direct_eval: in_eval,
         with: false,
         interner,
+        writing: false,
+        in_case_clause: false,
     };
 
     match visitor.visit(node.into()) {
@@ -91,6 +97,11 @@ struct BindingEscapeAnalyzer<'interner> {
     direct_eval: bool,
     with: bool,
     interner: &'interner Interner,
+    /// The identifiers being visited are targets of an assignment.
+    writing: bool,
+    /// The statements being visited are directly contained in a `case` clause: a lexical
+    /// declaration there can be skipped by a jump to a later clause of the same scope.
+    in_case_clause: bool,
 }
 
 impl<'ast> VisitorMut<'ast> for BindingEscapeAnalyzer<'_> {
@@ -99,8 +110,52 @@ impl<'ast> VisitorMut<'ast> for BindingEscapeAnalyzer<'_> {
     fn visit_identifier_mut(&mut self, node: &'ast mut Identifier) -> ControlFlow<Self::BreakTy> {
         let name = node.to_js_string(self.interner);
         self.scope
-            .access_binding(&name, self.direct_eval || self.with);
+            .access_binding_inner(&name, self.direct_eval || self.with, self.writing);
         ControlFlow::Continue(())
+    }
+
+    fn visit_assign_mut(&mut self, node: &'ast mut Assign) -> ControlFlow<Self::BreakTy> {
+        // NOTE: this also covers the identifiers of the right-hand side and of the default
+        //       initializers of a pattern, which errs on the safe side.
+        let writing = std::mem::replace(
+            &mut self.writing,
+            !matches!(node.lhs(), AssignTarget::Access(_)),
+        );
+        let result = node.visit_with_mut(self);
+        self.writing = writing;
+        result
+    }
+
+    fn visit_update_mut(&mut self, node: &'ast mut Update) -> ControlFlow<Self::BreakTy> {
+        let writing = std::mem::replace(
+            &mut self.writing,
+            matches!(node.target(), UpdateTarget::Identifier(_)),
+        );
+        let result = node.visit_with_mut(self);
+        self.writing = writing;
+        result
+    }
+
+    fn visit_variable_mut(&mut self, node: &'ast mut Variable) -> ControlFlow<Self::BreakTy> {
+        let names = bound_names(&*node);
+        self.with_declared_names(names, |this| node.visit_with_mut(this))
+    }
+
+    fn visit_iterable_loop_initializer_mut(
+        &mut self,
+        node: &'ast mut IterableLoopInitializer,
+    ) -> ControlFlow<Self::BreakTy> {
+        match node {
+            IterableLoopInitializer::Let(binding) | IterableLoopInitializer::Const(binding) => {
+                let names = bound_names(&*binding);
+                let in_case_clause = std::mem::replace(&mut self.in_case_clause, false);
+                let result =
+                    self.with_declared_names(names, |this| this.visit_binding_mut(binding));
+                self.in_case_clause = in_case_clause;
+                result
+            }
+            _ => node.visit_with_mut(self),
+        }
     }
 
     fn visit_block_mut(&mut self, node: &'ast mut Block) -> ControlFlow<Self::BreakTy> {
@@ -113,7 +168,10 @@ impl<'ast> VisitorMut<'ast> for BindingEscapeAnalyzer<'_> {
             std::mem::swap(&mut self.scope, scope);
         }
 
+        let in_case_clause = std::mem::replace(&mut self.in_case_clause, false);
+        self.mark_function_declarations_initialized(&node.statements);
         self.visit_statement_list_mut(&mut node.statements)?;
+        self.in_case_clause = in_case_clause;
         if let Some(scope) = &mut node.scope {
             std::mem::swap(&mut self.scope, scope);
             scope.reorder_binding_indices();
@@ -132,9 +190,14 @@ impl<'ast> VisitorMut<'ast> for BindingEscapeAnalyzer<'_> {
             }
             std::mem::swap(&mut self.scope, scope);
         }
+        let in_case_clause = std::mem::replace(&mut self.in_case_clause, true);
+        for case in &node.cases {
+            self.mark_function_declarations_initialized(case.body());
+        }
         for case in &mut node.cases {
             self.visit_case_mut(case)?;
         }
+        self.in_case_clause = in_case_clause;
         if let Some(scope) = &mut node.scope {
             std::mem::swap(&mut self.scope, scope);
             scope.reorder_binding_indices();
@@ -166,7 +229,10 @@ impl<'ast> VisitorMut<'ast> for BindingEscapeAnalyzer<'_> {
         }
         std::mem::swap(&mut self.scope, &mut node.scope);
         if let Some(binding) = &mut node.parameter {
-            self.visit_binding_mut(binding)?;
+            let names = bound_names(&*binding);
+            let in_case_clause = std::mem::replace(&mut self.in_case_clause, false);
+            self.with_declared_names(names, |this| this.visit_binding_mut(binding))?;
+            self.in_case_clause = in_case_clause;
         }
         self.visit_block_mut(&mut node.block)?;
         std::mem::swap(&mut self.scope, &mut node.scope);
@@ -403,6 +469,12 @@ impl<'ast> VisitorMut<'ast> for BindingEscapeAnalyzer<'_> {
         }
         std::mem::swap(&mut self.scope, &mut node.name_scope);
         node.name_scope.reorder_binding_indices();
+        let name = node.name().to_js_string(self.interner);
+        if self.in_case_clause {
+            self.scope.escape_binding(&name);
+        } else {
+            self.scope.mark_initialized(&name);
+        }
         ControlFlow::Continue(())
     }
 
@@ -540,6 +612,44 @@ impl<'ast> VisitorMut<'ast> for BindingEscapeAnalyzer<'_> {
 }
 
 impl BindingEscapeAnalyzer<'_> {
+    /// Visits (with `visit`) a declaration that binds `names`: everything analysed afterwards sees
+    /// the bindings as initialized - unless the declaration can be jumped over (`case` clauses),
+    /// in which case the bindings stay in their environment.
+    fn with_declared_names(
+        &mut self,
+        names: Vec<Sym>,
+        visit: impl FnOnce(&mut Self) -> ControlFlow<&'static str>,
+    ) -> ControlFlow<&'static str> {
+        visit(self)?;
+        for name in names {
+            let name = name.to_js_string(self.interner);
+            if self.in_case_clause {
+                self.scope.escape_binding(&name);
+            } else {
+                self.scope.mark_initialized(&name);
+            }
+        }
+        ControlFlow::Continue(())
+    }
+
+    /// Function declarations are initialized when their block is entered.
+    fn mark_function_declarations_initialized(&mut self, statements: &StatementList) {
+        for statement in statements.statements() {
+            let StatementListItem::Declaration(declaration) = statement else {
+                continue;
+            };
+            let name = match declaration.as_ref() {
+                Declaration::FunctionDeclaration(f) => f.name(),
+                Declaration::GeneratorDeclaration(f) => f.name(),
+                Declaration::AsyncFunctionDeclaration(f) => f.name(),
+                Declaration::AsyncGeneratorDeclaration(f) => f.name(),
+                Declaration::ClassDeclaration(_) | Declaration::Lexical(_) => continue,
+            };
+            self.scope
+                .mark_initialized(&name.to_js_string(self.interner));
+        }
+    }
+
     fn visit_function_like(
         &mut self,
         parameters: &mut FormalParameterList,
@@ -552,6 +662,8 @@ impl BindingEscapeAnalyzer<'_> {
         if self.direct_eval {
             scopes.escape_all_bindings();
         }
+        let in_case_clause = std::mem::replace(&mut self.in_case_clause, false);
+        let writing = std::mem::replace(&mut self.writing, false);
         let mut scope = scopes.parameter_scope();
         std::mem::swap(&mut self.scope, &mut scope);
         self.visit_formal_parameter_list_mut(parameters)?;
@@ -560,6 +672,8 @@ impl BindingEscapeAnalyzer<'_> {
         std::mem::swap(&mut self.scope, &mut scope);
         self.visit_function_body_mut(body)?;
         std::mem::swap(&mut self.scope, &mut scope);
+        self.in_case_clause = in_case_clause;
+        self.writing = writing;
         if scopes.arguments_object_accessed() && scopes.mapped_arguments_object {
             let parameter_names = bound_names(parameters);
             for name in parameter_names {
